@@ -103,7 +103,13 @@ def check_legacy_digest(ctx, P, T, for_prop):
     # reset delegates
     rs = engine_calls(P, rst, H + r"::reset(_with_key)?$")
     ok = len(rs) >= 1 and all(cn(f2, c2.args[0]) == "arg1.ctx" for f2, c2, via in rs)
-    ctx.check(ok, "delegate", T + "::reset", "reset resets the hashing context", "%s::reset does not reset its hashing context" % T, where=rst.where(), key="delegate:%s::reset" % T)
+    if ok:
+        # ... on EVERY path: a reset that is skipped when no result was taken yet leaves the old input in the context
+        direct = [c2.bb for f2, c2, via in rs if f2.id == rst.id] + [via.bb for f2, c2, via in rs if via is not None and f2.id != rst.id]
+        ok = rules.every_ret_path_passes(rst, direct)
+        for g in {f2.id: f2 for f2, c2, via in rs if f2.id != rst.id}.values():
+            ok = ok and rules.every_ret_path_passes(g, [c2.bb for f2, c2, via in rs if f2.id == g.id])
+    ctx.check(ok, "delegate", T + "::reset", "reset resets the hashing context on every path", "%s::reset does not reset its hashing context on every path (a mid-stream reset would keep the bytes already fed)" % T, where=rst.where(), key="delegate:%s::reset" % T)
     # constructor
     if bits is not None:
         nf = P.fn(T + "::new")
